@@ -737,6 +737,13 @@ def run_case(case, ctx):  # noqa: C901
             data2 = hab.export()
             if data2 != data:
                 _echo(ctx, p, "export-not-repeatable", first=len(data), second=len(data2))
+            if len(data2) != len(data):
+                _viol(ctx, p, "second-export-of-the-same-object-has-another-length", first=len(data), second=len(data2))
+                return
+            if ctx.rng.random() < 0.3:
+                # the file of the SECOND call is the one judged below: nothing may have been consumed or applied twice
+                ctx.count("second_exports_judged")
+                data = data2
     except SPSDKError as e:
         ctx.refused(sig, f"{type(e).__name__}: {str(e)[:100]}")
         ctx.count("refused_" + type(e).__name__)
